@@ -1,7 +1,7 @@
 (* C07 - forcing recomputes exactly what was asked.  Statements only. *)
 From Coq Require Import String Ascii List Bool Arith ZArith.
 From TC Require Import PyStr Value Dict Repr Param Config Key Chain Graph World Eval History
-     GraphProofs EvalProofs HistoryProofs.
+     GraphProofs GraphMoreProofs EvalProofs HistoryProofs.
 Import ListNotations.
 
 (* Task.force: the object loses its in-memory result and is marked; every other object is untouched *)
@@ -106,3 +106,38 @@ Theorem C07_forced_mark_consumed : forall classes run f w id w' v,
   eval classes run f w id = (w', inl v) -> os_forced (state_of w' id) = false.
 Proof. exact eval_success_unmarks. Qed.
 Print Assumptions C07_forced_mark_consumed.
+
+(* the closure does not depend on the order (or multiplicity) in which the chain lists its tasks: two chains with the
+   same tasks, registered in any order, mark the same objects *)
+Theorem C07_closure_order_independent : forall objs c c' roots x,
+  (forall i, In i (chain_ids c) <-> In i (chain_ids c')) ->
+  (In x (closure_from (input_edge objs) (chain_ids c) roots) <-> In x (closure_from (input_edge objs) (chain_ids c') roots)).
+Proof. intros objs c c' roots x. exact (closure_order_independent (input_edge objs) (chain_ids c) (chain_ids c') roots x). Qed.
+Print Assumptions C07_closure_order_independent.
+
+(* the closure is closed under dependence: a task of the chain that reads a marked task is marked *)
+Theorem C07_closure_closed : forall objs c roots a x,
+  In a (closure_from (input_edge objs) (chain_ids c) roots) -> input_edge objs a x = true -> In x (chain_ids c) ->
+  In x (closure_from (input_edge objs) (chain_ids c) roots).
+Proof. intros objs c. exact (closure_closed (input_edge objs) (chain_ids c)). Qed.
+Print Assumptions C07_closure_closed.
+
+(* forcing what a force has marked marks nothing more; forcing several names is forcing each *)
+Theorem C07_closure_idempotent : forall objs c roots x,
+  In x (closure_from (input_edge objs) (chain_ids c) (closure_from (input_edge objs) (chain_ids c) roots)) <->
+  In x (closure_from (input_edge objs) (chain_ids c) roots).
+Proof. intros objs c. exact (closure_idempotent (input_edge objs) (chain_ids c)). Qed.
+Print Assumptions C07_closure_idempotent.
+
+Theorem C07_closure_of_several : forall objs c r1 r2 x,
+  In x (closure_from (input_edge objs) (chain_ids c) (r1 ++ r2)) <->
+  In x (closure_from (input_edge objs) (chain_ids c) r1) \/ In x (closure_from (input_edge objs) (chain_ids c) r2).
+Proof. intros objs c. exact (closure_union (input_edge objs) (chain_ids c)). Qed.
+Print Assumptions C07_closure_of_several.
+
+(* a single pass over the tasks in their order of registration is not the closure: a dependant listed before the task
+   it reads is lost (the witness: report <- clean <- load, listed dependants first, load forced) *)
+Theorem C07_single_pass_refuted :
+  exists edge nodes roots x, In x (closure_from edge nodes roots) /\ ~ In x (single_pass edge nodes roots).
+Proof. exact single_pass_refuted. Qed.
+Print Assumptions C07_single_pass_refuted.
